@@ -58,6 +58,8 @@ type bFunc struct {
 	// failing, formula on the same runner with a derived context, swallows the
 	// error and returns x
 	Reenter bool
+	// Via: the function sits in the nested data map `ns` under this key and is called as ns.<Via>(...)
+	Via string
 }
 
 func (f *bFunc) sig() string {
@@ -301,6 +303,9 @@ func (n *BNode) text() string {
 		nm := n.BName
 		if n.Op == bCallOp {
 			nm = n.Fn.Name
+			if n.Fn.Via != "" {
+				nm = "ns." + n.Fn.Via
+			}
 		}
 		s := nm + "(" + strings.Join(p, ", ")
 		if n.Spread {
@@ -759,9 +764,34 @@ func bridgeOnce(rc *RunCtx, wl, fl *Stream, primary bool) {
 		f := genBFunc(wl, nm, maxParams)
 		w.funcs[nm] = f
 		names = append(names, nm)
+		if wl.Intn(5) == 0 { // reached through a selector, under a key that is also a builtin's name
+			via := []string{"len", "max", "upper", "join", "abs", "fn"}[wl.Intn(6)]
+			ns, _ := data["ns"].(map[string]interface{})
+			if ns == nil {
+				ns = map[string]interface{}{}
+				data["ns"] = ns
+			}
+			if _, taken := ns[via]; !taken {
+				f.Via = via
+				ns[via] = nil // filled by placeFuncs
+			}
+		}
 		data[nm] = w.build(f)
 		sample.Funcs = append(sample.Funcs, f.sig())
 	}
+	placeFuncs := func() {
+		for _, nm := range names {
+			f := w.funcs[nm]
+			fn := w.build(f)
+			if f.Via != "" {
+				data["ns"].(map[string]interface{})[f.Via] = fn
+				delete(data, nm)
+			} else {
+				data[nm] = fn
+			}
+		}
+	}
+	placeFuncs()
 	if wl.Intn(4) == 0 {
 		f := &bFunc{Name: "rn", Ctx: true, Params: []pType{{K: pIface}}, Ret: rIface, Reenter: true}
 		w.funcs["rn"] = f
@@ -809,9 +839,7 @@ func bridgeOnce(rc *RunCtx, wl, fl *Stream, primary bool) {
 		wantV, st := ev.eval(root)
 		// fresh stubs (their per-function invocation counters restart) and a fresh runner
 		w.log, w.n, w.failAt = nil, 0, failAt
-		for _, nm := range names {
-			data[nm] = w.build(w.funcs[nm])
-		}
+		placeFuncs()
 		r := formula.NewRunner()
 		r.SetThis(data)
 		w.runner = r
@@ -917,7 +945,7 @@ func bridgeOnce(rc *RunCtx, wl, fl *Stream, primary bool) {
 				rc.violation("evaluation fails with an error", "panic-instead-of-error", desc+": model: "+ev.why+"; panic "+panicStr(pan))
 			} else if err == nil {
 				rc.violation("evaluation fails with an error", "error-swallowed", desc+": model: "+ev.why+"; got value "+render(got))
-			} else if ev.errFn != "" && !strings.Contains(err.Error(), ev.errFn) {
+			} else if ev.errFn != "" && !strings.Contains(err.Error(), errNameOf(w, ev.errFn)) {
 				rc.violation("a returned error aborts evaluation with an error naming the function", "error-does-not-name-function", desc+": error text "+strconv.Quote(err.Error())+" does not contain "+ev.errFn)
 			}
 		case stUnspec:
@@ -938,6 +966,14 @@ func bridgeOnce(rc *RunCtx, wl, fl *Stream, primary bool) {
 	if primary {
 		rc.sample = sample
 	}
+}
+
+// errNameOf: the name an error must contain - the last segment of the callee expression
+func errNameOf(w *bWorld, fn string) string {
+	if f, ok := w.funcs[fn]; ok && f.Via != "" {
+		return f.Via
+	}
+	return fn
 }
 
 func panicStr(p interface{}) string {
